@@ -8,13 +8,13 @@ import "math"
 
 type v3 struct{ x, y, z float64 }
 
-func (a v3) sub(b v3) v3       { return v3{a.x - b.x, a.y - b.y, a.z - b.z} }
-func (a v3) add(b v3) v3       { return v3{a.x + b.x, a.y + b.y, a.z + b.z} }
-func (a v3) mul(f float64) v3  { return v3{a.x * f, a.y * f, a.z * f} }
-func (a v3) dot(b v3) float64  { return a.x*b.x + a.y*b.y + a.z*b.z }
-func (a v3) cross(b v3) v3     { return v3{a.y*b.z - a.z*b.y, a.z*b.x - a.x*b.z, a.x*b.y - a.y*b.x} }
-func (a v3) norm() float64     { return math.Sqrt(a.dot(a)) }
-func dist(a, b v3) float64     { return a.sub(b).norm() }
+func (a v3) sub(b v3) v3      { return v3{a.x - b.x, a.y - b.y, a.z - b.z} }
+func (a v3) add(b v3) v3      { return v3{a.x + b.x, a.y + b.y, a.z + b.z} }
+func (a v3) mul(f float64) v3 { return v3{a.x * f, a.y * f, a.z * f} }
+func (a v3) dot(b v3) float64 { return a.x*b.x + a.y*b.y + a.z*b.z }
+func (a v3) cross(b v3) v3    { return v3{a.y*b.z - a.z*b.y, a.z*b.x - a.x*b.z, a.x*b.y - a.y*b.x} }
+func (a v3) norm() float64    { return math.Sqrt(a.dot(a)) }
+func dist(a, b v3) float64    { return a.sub(b).norm() }
 
 const (
 	wgsA  = 6378137.0
